@@ -26,6 +26,7 @@ type Scenario struct {
 	Init       [][]byte
 	Replies    [][][]byte
 	WF, RF, FF []int
+	WS         []int // write indices at which the port takes only part of the bytes (and reports that, without an error)
 	Calls      []Call
 	Tag        string
 	// oracle switches
@@ -255,6 +256,7 @@ func idleBits(ev []byte) string {
 
 func RunScenario(sc *Scenario) *RunResult {
 	port := NewPort(sc.Init, sc.Replies, sc.WF, sc.RF, sc.FF)
+	port.WS = idxSet(sc.WS)
 	var cfg vedirect.Config
 	dbg := &capLogger{}
 	iol := &capLogger{}
@@ -363,6 +365,10 @@ func RunScenario(sc *Scenario) *RunResult {
 	}
 	res.Op = fmt.Sprintf("P %d %s %s %s %s %s %s", sc.Cfg, chunksStr(sc.Init), repliesStr(sc.Replies),
 		intsStr(sc.WF), intsStr(sc.RF), intsStr(sc.FF), strings.Join(callStrs, ";"))
+	if len(sc.WS) > 0 {
+		// the model has no notion of a partial write: the driver hands the frame to the port once, whatever n is
+		res.Op += " ws:" + intsStr(sc.WS)
+	}
 	res.Out = fmt.Sprintf("%s W=%s R=%d F=%d L=%s", strings.Join(res.Results, ";"), strings.Join(ws, ","), port.NR, port.NF, strings.Join(ls, ","))
 	return res
 }
